@@ -13,7 +13,8 @@ RULE = ("well-typed programs built by construction (type-directed chunks over st
         "UNPAIR n/GET n/UPDATE n, option/or, sets/maps, CONCAT/SLICE/SIZE, PACK/UNPACK, arithmetic, COMPARE, hashes, "
         "environment instructions, tickets, LAMBDA_REC, CAST/RENAME, FAILWITH; <=8 chunks quick / <=20 thorough, nesting <=2/3; plus a "
         "focused tier of 1-3 chunk programs whose first chunk kind is drawn uniformly from all 25 kinds; every hash instruction on "
-        "every message length 0..300 (thorough ..1200) exhaustively; a session tier runs programs as REPL text through "
+        "every message length 0..300 (thorough ..1200) exhaustively; every arithmetic instruction and operand-type combination on a small "
+        "cross product of boundary operands; a session tier runs programs as REPL text through "
         "Interpreter.execute right after 1-2 cells that failed inside DIP / ITER / IF / lambda bodies) x 0..3 input "
         "values x environments (amount, balance, sender, source, now, level, chain id, self address). Oracle: "
         "differential against an independent reference interpreter validated on Octez' opcode vectors: same final "
@@ -89,6 +90,37 @@ def _hash_case(name, n):
                                    "min_block_time": 1}), "chunks": ["hash-length"]}
 
 
+SMALL = {"int": [-7, -2, -1, 0, 1, 2, 3, 7, 255, 256, -256], "nat": [0, 1, 2, 3, 7, 255, 256, 257], "mutez": [0, 1, 7, 2 ** 63 - 1],
+         "timestamp": [-7, 0, 7], "bool": [False, True], "bytes": [b"", b"\x01", b"\x80", b"\x00\x80", b"\xff\x7f"]}
+_ENV0 = {"amount": 0, "balance": 0, "sender": (b"\x00\x00" + b"\x11" * 20, ""), "source": (b"\x00\x00" + b"\x11" * 20, ""), "now": 0,
+         "level": 1, "chain_id": b"\x00" * 4, "self_address": (b"\x01" + b"\x22" * 20 + b"\x00", ""), "min_block_time": 1}
+
+
+def arith_cases():
+    """Every (arithmetic instruction, operand types) combination on a small cross product of boundary operands: the
+    differential oracle sees every arithmetic instruction with every sign combination in every run."""
+    from vlib import ref_arith as ra
+    from vlib import ref_values as rv
+    out = []
+    for op, tb in sorted(ra.BINARY.items()):
+        for (ta, tb2) in sorted(tb):
+            for a in SMALL[ta]:
+                for b in SMALL[tb2]:
+                    out.append({"inputs": [{"t": rv.T(ta), "v": rv.to_micheline(rv.T(ta), a)}, {"t": rv.T(tb2), "v": rv.to_micheline(rv.T(tb2), b)}],
+                                "code": [{"prim": op}], "env": xc.env_to_json(_ENV0), "chunks": ["arith-grid"]})
+    for op, tb in sorted(ra.UNARY.items()):
+        for ta in sorted(tb):
+            for a in SMALL[ta]:
+                out.append({"inputs": [{"t": rv.T(ta), "v": rv.to_micheline(rv.T(ta), a)}], "code": [{"prim": op}],
+                            "env": xc.env_to_json(_ENV0), "chunks": ["arith-grid"]})
+    return out
+
+
+def _prop_grid(case, stats):
+    kind, ref = oracle(case)
+    stats.case(case, True, "arith-grid:" + kind, sample={"op": case["code"][0]["prim"], "operands": [i["v"] for i in case["inputs"]]})
+
+
 def _prop_hash(case, stats):
     oracle(case)
     n = len(case["inputs"][0]["v"]["bytes"]) // 2
@@ -103,6 +135,7 @@ def run(h):
     h.run_given(lambda: cases(size, depth), _prop, h.n(60, 6000), shards=16, classify=classify)
     h.run_given(lambda: cases(size, depth, focused=True), _prop, h.n(120, 6000), shards=16, classify=classify, name="focused")
     h.run_given(lambda: cases(size, depth, focused=True, session=True), _prop, h.n(40, 3000), shards=16, classify=classify, name="session")
+    h.run_enum(arith_cases(), _prop_grid, shards=16, classify=classify)
     # every message length up to 300 (thorough 1200) bytes for every hash instruction: padding depends on the length only
     top = 300 if h.quick else 1200
     h.run_enum([_hash_case(name, n) for name in sorted(ri.HASHES) for n in range(top + 1)], _prop_hash, shards=16)
